@@ -355,7 +355,10 @@ fn run_contest_family(rep: &Report, tier: Tier) -> (u64, u64, u64, u64) {
                         vec![p().feat(&look(1.0, 0.0), 0.9)],
                         // two detections with looks x and y near the first track, and a third one WITHOUT a feature
                         // on top of the bystander (it can only be attached positionally, to the bystander)
-                        vec![p1().feat(&look(x, 0.0), 0.9), p().shift(-1.0, 0.5).feat(&look(y, 0.0), 0.9), q().shift(1.0, 0.0)],
+                        // (every third configuration: the third detection DOES carry a feature, a look that only the
+                        // bystander resembles, at distance .3 / .7 / 1.1 from the bystander's stored look - a claimant for
+                        // the bystander that competes with the SECOND choice of the two detections near the first track)
+                        vec![p1().feat(&look(x, 0.0), 0.9), p().shift(-1.0, 0.5).feat(&look(y, 0.0), 0.9), if code % 3 == 0 { q().shift(1.0, 0.0).feat(&look(0.5, z.1 + [0.3f32, 0.7, 1.1][(code / 3) % 3]), 0.9) } else { q().shift(1.0, 0.0) }],
                     ];
                     let mut trk = Guarded::new(AnyTrk::new(&cfg2));
                     for (k, dets) in frames.iter().enumerate() {
@@ -400,7 +403,7 @@ fn run_contest_family(rep: &Report, tier: Tier) -> (u64, u64, u64, u64) {
 pub fn run(tier: Tier) -> Report {
     let rep = Report::new("C12", tier);
     let ls = Arc::new(lists());
-    rep.set_rule("every call history of depth <= D (quick 4 for VisualSort, thorough 4 on the full grid; VisualSort; BatchVisualSort one level shallower on a sub-grid; with own-area thresholds its calls are two-scene batches whose companion scene has different own-area shares, both scenes judged) over 13 detection lists (same look, look-alike, half-way look, swapped appearances, no feature, low quality, small box, mutual occlusion, far-away look-alike, empty) x option grid {Euclidean(.5) / cosine(.9); plus cosine(.2) configurations} x {IoU, Mahalanobis} x min votes {1,2} x minimal track length {1,2} x max observations {2,3} x use/collect quality {(0,.6),(.5,.3)} x minimal area {0,150} x own-area share use/collect {(0,0),(.5,.2)} plus each threshold switched on alone {(.5,0),(0,.3)} (quick: covering subset in which every option takes every value; thorough: all 512); before every call the galleries are read from the store and usable / collected / votes / weights / contests / positional fallback re-derived independently. Plus a contest family (Euclidean(1.2), min votes 2 and 1): a track with three stored looks, a bystander with one, and two detections arriving together (plus a feature-less third one on top of the bystander) whose looks run over a 35 x 35 grid (thorough 69 x 69) x 14 (second look, bystander look) pairs - competing claims with different vote counts while a pair short of the quorum holds the frame's largest distance. Non-trivial = call with at least one appearance claim.");
+    rep.set_rule("every call history of depth <= D (quick 4 for VisualSort, thorough 4 on the full grid; VisualSort; BatchVisualSort one level shallower on a sub-grid; with own-area thresholds its calls are two-scene batches whose companion scene has different own-area shares, both scenes judged) over 13 detection lists (same look, look-alike, half-way look, swapped appearances, no feature, low quality, small box, mutual occlusion, far-away look-alike, empty) x option grid {Euclidean(.5) / cosine(.9); plus cosine(.2) configurations} x {IoU, Mahalanobis} x min votes {1,2} x minimal track length {1,2} x max observations {2,3} x use/collect quality {(0,.6),(.5,.3)} x minimal area {0,150} x own-area share use/collect {(0,0),(.5,.2)} plus each threshold switched on alone {(.5,0),(0,.3)} (quick: covering subset in which every option takes every value; thorough: all 512); before every call the galleries are read from the store and usable / collected / votes / weights / contests / positional fallback re-derived independently. Plus a contest family (Euclidean(1.2), min votes 2 and 1): a track with three stored looks, a bystander with one, and two detections arriving together (plus a third one on top of the bystander: feature-less, or with a look only the bystander resembles - a claimant that competes with the others' second choice) whose looks run over a 35 x 35 grid (thorough 69 x 69) x 14 (second look, bystander look) pairs - competing claims with different vote counts while a pair short of the quorum holds the frame's largest distance. Non-trivial = call with at least one appearance claim.");
     rep.assume("decisions within 1e-3 of a threshold or vote weights within 1e-4 of each other are accepted either way (counted as undecided)");
     let grid = option_grid(tier);
     rep.extra("option_points", json!(grid.len()));
